@@ -760,6 +760,8 @@ def enum_cases():
     add('td_api_rib_v4_record_with_v6_prefix', {'kind': 'td', 'pre': [], 'recs': [[7, [1, 0, all_masks(1)[64][1], [E(0, 0, NH4, A0)]]], [7, [2, 0, all_masks(0)[24][1], [E(0, 0, NH6, A0)]]]], 'api_only': 1})
     # ---- daemon-side converters
     S4, S6 = SOURCES[0], SOURCES[2]
+    DUAL6 = [[0x20, 1, 0x0d, 0xb8] + [0] * 11 + [0x11], [0x20, 1, 0x0d, 0xb8] + [0] * 11 + [0xfe], S4[2], S4[3], list(S4[4])]
+    SAMEID = [[10, 0, 9, 9], [10, 0, 9, 254], 65077, 65000, list(S4[4])]
     for v6 in (0, 1):
         fam = IPV6 if v6 else IPV4
         src = S6 if v6 else S4
@@ -837,6 +839,11 @@ def enum_cases():
         ('v4_routes_with_v6_next_hops', [R(S4, IPV4, 0, 0, NH6), R(S6, IPV4, 1, 0, NH6LL)]),
         ('only_v6_family', [R(S4, IPV6, 0), R(S6, IPV6, 1), R(S6, IPV6, 2)]),
         ('every_small_prefix_every_peer', [R(SOURCES[i], f, j) for i in range(4) for f in (IPV4, IPV6) for j in range(4)]),
+        # sessions are told apart by their address, not by the BGP identifier: a dual-stack neighbour with one
+        # router id on both sessions, and two neighbours of different ASes re-using a router id (RFC 6286)
+        ('dual_stack_peer_one_bgp_id', [R(S4, IPV4, 0), R(DUAL6, IPV6, 0), R(DUAL6, IPV4, 1), R(S4, IPV6, 1)]),
+        ('two_ases_one_bgp_id', [R(S4, IPV4, 0), R(SAMEID, IPV4, 0), R(SAMEID, IPV4, 2), R(S4, IPV6, 2)]),
+        ('three_peers_one_bgp_id_same_prefix', [R(S4, IPV4, 3), R(DUAL6, IPV4, 3), R(SAMEID, IPV4, 3)]),
     ]
     for nm, routes in dumps:
         add('ddump_' + nm, {'kind': 'ddump', 'rid': V4S[len(routes) % len(V4S)], 'routes': routes})
